@@ -25,10 +25,6 @@ structure AuxRefines (i i' : AuxInfo) : Prop where
     (∀ b, checkedSlice i.input a.name = some b → checkedSlice i'.input a'.name = some b) ∧
     (∀ b, checkedSlice i.input a.value = some b → checkedSlice i'.input a'.value = some b)
 
-def isPanicE {α : Type} : Except Err α → Prop
-  | .error (.panic _) => True
-  | _ => False
-
 /-- **The class of controllers.** `E`: "equal up to the fragmentation of the open text node". -/
 structure TextBlind {γ : Type} (ctl : Controller γ) (E : γ → γ → Prop) : Prop where
   refl : ∀ g, E g g
@@ -39,11 +35,12 @@ structure TextBlind {γ : Type} (ctl : Controller γ) (E : γ → γ → Prop) :
   token_doctype : ∀ g n p s n' p' s' fq raw src,
     ctl.token g (.doctype n p s fq raw src) = ctl.token g (.doctype n' p' s' fq raw src)
   /-- attribute buffers: either the controller fails on an out-of-range slice, or it reads the same bytes -/
-  aux_norm : ∀ g i i', AuxRefines i i' → isPanicE (ctl.auxInfo g i).2 ∨ ctl.auxInfo g i = ctl.auxInfo g i'
+  aux_norm : ∀ g i i', AuxRefines i i' → EPanic (ctl.auxInfo g i).2 ∨ ctl.auxInfo g i = ctl.auxInfo g i'
   start : ∀ g g' n ns, E g g' → (ctl.startTag g n ns).2 = (ctl.startTag g' n ns).2 ∧ E (ctl.startTag g n ns).1 (ctl.startTag g' n ns).1
   endT : ∀ g g' n, E g g' → (ctl.endTag g n).2 = (ctl.endTag g' n).2 ∧ E (ctl.endTag g n).1 (ctl.endTag g' n).1
   aux : ∀ g g' i, E g g' → (ctl.auxInfo g i).2 = (ctl.auxInfo g' i).2 ∧ E (ctl.auxInfo g i).1 (ctl.auxInfo g' i).1
-  emit : ∀ g g', E g g' → ctl.shouldEmit g = ctl.shouldEmit g'
+  /-- content is never removed (emission stays enabled) -/
+  emit : ∀ g, ctl.shouldEmit g = true
   flags : ∀ g g', E g g' → ctl.initialFlags g = ctl.initialFlags g'
   tok : ∀ g g' t, E g g' → tokIsText t = false →
     (ctl.token g t).2.chunks = (ctl.token g' t).2.chunks ∧ (ctl.token g t).2.err = (ctl.token g' t).2.err ∧
@@ -109,7 +106,6 @@ structure DPend (ds dw : Disp γ) : Prop where
 behind by the slack `inpW[rcs_w, rcs_s + δ)` -/
 structure DBytes (inpS inpW : Bytes) (δ : Nat) (ds dw : Disp γ) : Prop where
   rcs_le : dw.rcs ≤ ds.rcs + δ
-  rcs_in : ds.rcs ≤ inpS.length
   bytes : sinkBytes ds.sink = sinkBytes dw.sink ++
     (if ds.emissionEnabled = true then LolHtml.slice inpW dw.rcs (ds.rcs + δ) else [])
 
@@ -118,15 +114,18 @@ structure DK0 (E : γ → γ → Prop) (inpS inpW : Bytes) (δ : Nat) (ds dw : D
   eq : DEq ds dw
   pend : DPend ds dw
   bytes : DBytes inpS inpW δ ds dw
+  emT : ds.emissionEnabled = true
 
 /-- text debt `d > 0` under the TEXT capture flag: the split dispatcher has received the `d` bytes before
 its `remaining_content_start` as a (non-last) text chunk -/
 structure DKt (ctl : Controller γ) (E : γ → γ → Prop) (inpS inpW : Bytes) (δ d : Nat) (ds dw : Disp γ) : Prop where
   ctl : E ds.ctl (ctl.token dw.ctl (.text (LolHtml.slice inpW (ds.rcs + δ - d) (ds.rcs + δ)) ds.lastTextType false
       ⟨ds.textPendingStart - d, ds.textPendingStart⟩)).1
+  emT : ds.emissionEnabled = true
   eq : DEq ds dw
   bytes : DBytes inpS inpW δ ds dw
   rcs_d : dw.rcs + d ≤ ds.rcs + δ
+  rcs_in : ds.rcs ≤ inpS.length
   tps_d : d ≤ ds.textPendingStart
 
 def DK (ctl : Controller γ) (E : γ → γ → Prop) (inpS inpW : Bytes) (δ : Nat) (d : Nat) (ds dw : Disp γ) : Prop :=
@@ -230,7 +229,7 @@ theorem DBytes.append {inpS inpW : Bytes} {δ : Nat} {ds dw ds' dw' : Disp γ} (
     (hw : sinkBytes dw'.sink = sinkBytes dw.sink ++ (if ds.emissionEnabled = true then X else []))
     (hrs : ds'.rcs = ds.rcs) (hrw : dw'.rcs = dw.rcs) (hem : ds'.emissionEnabled = ds.emissionEnabled)
     (hx : X = [] ∨ dw.rcs = ds.rcs + δ) : DBytes inpS inpW δ ds' dw' := by
-  refine ⟨by rw [hrs, hrw]; exact h.rcs_le, by rw [hrs]; exact h.rcs_in, ?_⟩
+  refine ⟨by rw [hrs, hrw]; exact h.rcs_le, ?_⟩
   rw [hs, hw, hrs, hrw, hem, h.bytes]
   rcases hx with hx | hx
   · subst hx
@@ -268,9 +267,9 @@ theorem flushPendingText_sim {E : γ → γ → Prop} {inpS inpW : Bytes} {δ : 
     rw [c3] at a12; rw [e3] at b12
     refine ⟨b13, a13, ⟨by rw [a1, b1]; exact hcl.text_cong _ _ _ _ _ _ h.ctl, ⟨by rw [a3, b3]; exact h.eq.flags, by rw [a4, b4]; exact h.eq.em,
       by rw [a6, b6]; exact h.eq.gffh, by rw [a7, b7]; exact h.eq.paux, by rw [a10, b10]; exact h.eq.enc,
-      by rw [a11, b11]; exact h.eq.nenc⟩, ⟨by rw [a5, b5]; exact h.pend.ltt, by rw [a8, b8], by rw [a9, b9]; exact h.pend.tps⟩, ?_⟩, a2, b2⟩
+      by rw [a11, b11]; exact h.eq.nenc⟩, ⟨by rw [a5, b5]; exact h.pend.ltt, by rw [a8, b8], by rw [a9, b9]; exact h.pend.tps⟩, ?_, by rw [a4]; exact h.emT⟩, a2, b2⟩
     refine DBytes.append (ds := { ds with textPending := false }) (dw := { dw with textPending := false })
-      ⟨h.bytes.rcs_le, h.bytes.rcs_in, h.bytes.bytes⟩ [] ?_ ?_ a2 b2 a4 (Or.inl rfl)
+      ⟨h.bytes.rcs_le, h.bytes.bytes⟩ [] ?_ ?_ a2 b2 a4 (Or.inl rfl)
     · rw [a12]
     · rw [b12]; simp
 
@@ -295,7 +294,8 @@ theorem DK0.of_same {E : γ → γ → Prop} {inpS inpW : Bytes} {δ : Nat} {ds 
   ⟨by rw [hs.ctl, hw.ctl]; exact h.ctl,
    ⟨by rw [hs.flags, hw.flags]; exact h.eq.flags, by rw [hs.em, hw.em]; exact h.eq.em, by rw [hs.gffh, hw.gffh]; exact h.eq.gffh,
     by rw [hs.paux, hw.paux]; exact h.eq.paux, by rw [hs.enc, hw.enc]; exact h.eq.enc, by rw [hs.nenc, hw.nenc]; exact h.eq.nenc⟩,
-   ⟨by rw [hs.ltt, hw.ltt]; exact h.pend.ltt, by rw [hs.tp, hw.tp]; exact h.pend.tp, by rw [hs.tps, hw.tps]; exact h.pend.tps⟩, hb⟩
+   ⟨by rw [hs.ltt, hw.ltt]; exact h.pend.ltt, by rw [hs.tp, hw.tp]; exact h.pend.tp, by rw [hs.tps, hw.tps]; exact h.pend.tps⟩, hb,
+   by rw [hs.em]; exact h.emT⟩
 
 /-- `emit_chunk_before_lexeme` in both runs: afterwards the slack is empty -/
 theorem emitChunkBefore_sim {inpS inpW : Bytes} {δ : Nat} (F : Frame inpS inpW δ) {ds dw ds' : Disp γ}
@@ -396,7 +396,7 @@ theorem emitToken_sim {E : γ → γ → Prop} {inpS inpW : Bytes} {δ : Nat} (F
     rw [hw1]
     simp only [DRes.ofExcept, DRes.bind]
     have hE1 : E ds1.ctl dw1.ctl := by rw [s1.ctl, s2.ctl]; exact h.ctl
-    have hk1 : DK0 E inpS inpW δ ds1 dw1 := h.of_same s1 s2 ⟨by rw [r1, r2]; exact Nat.le_refl _, by rw [r1]; exact r3, by
+    have hk1 : DK0 E inpS inpW δ ds1 dw1 := h.of_same s1 s2 ⟨by rw [r1, r2]; exact Nat.le_refl _, by
       rw [hsb, r1, r2]
       have : LolHtml.slice inpW (raw.start + δ) (raw.start + δ) = [] := by unfold LolHtml.slice; simp
       rw [this]; cases ds1.emissionEnabled <;> simp⟩
@@ -416,11 +416,285 @@ theorem emitToken_sim {E : γ → γ → Prop} {inpS inpW : Bytes} {δ : Nat} (F
       refine ⟨by rw [a1, b1]; exact t2, ⟨by rw [a3, b3]; exact t3.flags, by rw [a4, b4]; exact t3.em, by rw [a6, b6]; exact t3.gffh,
         by rw [a7, b7]; exact t3.paux, by rw [a12, b12, t3.nenc, t3.enc], by rw [a10, b10]; exact t3.nenc⟩,
         ⟨by rw [a5, b5]; exact t4.ltt, by rw [a8, b8]; exact t4.tp, by rw [a9, b9]; exact t4.tps⟩,
-        ⟨by rw [a2, b2]; simp [shR], by rw [a2]; exact hraw.2, ?_⟩⟩
+        ⟨by rw [a2, b2]; simp [shR], ?_⟩, by rw [a4, (tokenProduced_desc (ctl := ctl) ds1 tok).2.2.2.1]; exact hk1.emT⟩
       rw [a11, b11, a2, b2, t7, t8, hsb]
       have : LolHtml.slice inpW (shR δ raw).end (raw.end + δ) = [] := by unfold LolHtml.slice; simp [shR]
       rw [this]
       cases (Disp.tokenProduced ctl ds1 tok).1.flushEncodingChange.emissionEnabled <;> simp
+
+/-! ### lexemes to tokens -/
+
+theorem srcOf_sh (pc δ : Nat) (raw : Range) : srcOf (pc + δ) raw = srcOf pc (shR δ raw) := by
+  simp only [srcOf, shR, Range.mk.injEq]; omega
+
+theorem shA_shA (a b : Nat) (o : AttrOutline) : shA a (shA b o) = shA (b + a) o := by
+  simp only [shA, shR, AttrOutline.mk.injEq, Range.mk.injEq]; omega
+
+theorem attrsOf_sh {inpS inpW : Bytes} {δ : Nat} (F : Frame inpS inpW δ) :
+    ∀ (as : List AttrOutline) (l : List (Bytes × Bytes × AttrOutline)), attrsOf inpS as = some l →
+      attrsOf inpW (as.map (shA δ)) = some (l.map fun a => (a.1, a.2.1, shA δ a.2.2)) := by
+  intro as
+  induction as with
+  | nil => intro l h; simp only [attrsOf, List.mapM_nil, Option.pure_def, Option.some.injEq] at h; subst h; rfl
+  | cons a as ih =>
+    intro l h
+    unfold attrsOf at h ih ⊢
+    simp only [List.mapM_cons, Option.bind_eq_bind, Option.bind_eq_some_iff, Option.pure_def, Option.some.injEq] at h
+    obtain ⟨b, hb, bs, hbs, rfl⟩ := h
+    simp only [List.map_cons, List.mapM_cons, Option.bind_eq_bind, Option.pure_def]
+    rw [ih bs hbs]
+    split at hb
+    · rename_i x y hx hy
+      simp only [Option.some.injEq] at hb
+      subst hb
+      simp only [shA, F.checkedSlice hx, F.checkedSlice hy]
+      rfl
+    · cases hb
+
+/-- `to_token` for tag lexemes in both runs -/
+theorem tagToToken_sim {inpS inpW : Bytes} {δ : Nat} (F : Frame inpS inpW δ) (f : Flags) (pc : Nat) (raw : Range) (o : TagOutline)
+    (ft : Flags × Option Token) (h : tagToToken f inpS ⟨pc + δ, raw, o⟩ = some ft) :
+    ∃ t', tagToToken f inpW ⟨pc, shR δ raw, shTag δ o⟩ = some (ft.1, t') ∧
+      match ft.2, t' with
+      | none, none => True
+      | some tok, some tok' => normToken tok = normToken tok' ∧ tokIsText tok' = false ∧
+          raw.start ≤ raw.end ∧ raw.end ≤ inpS.length
+      | _, _ => False := by
+  unfold tagToToken at h ⊢
+  cases o with
+  | startTag name hsh ns as sc =>
+    simp only [shTag] at h ⊢
+    by_cases hf : f.nextStartTag = true
+    · rw [if_pos hf] at h ⊢
+      cases hn : checkedSlice inpS name with
+      | none => rw [hn] at h; simp at h
+      | some n =>
+        cases ha : attrsOf inpS as with
+        | none => rw [hn, ha] at h; simp at h
+        | some attrs =>
+          cases hr : checkedSlice inpS raw with
+          | none => rw [hn, ha, hr] at h; simp at h
+          | some rawb =>
+            rw [hn, ha, hr] at h
+            simp only [Option.some.injEq] at h
+            subst h
+            rw [F.checkedSlice hn, attrsOf_sh F as attrs ha, F.checkedSlice hr]
+            obtain ⟨r1, r2, _⟩ := checkedSlice_some hr
+            refine ⟨_, rfl, ?_, rfl, r1, r2⟩
+            simp only [normToken, srcOf_sh, List.map_map, Token.startTag.injEq, true_and, and_true]
+            apply List.map_congr_left
+            intro a _
+            simp only [Function.comp, shA_shA, Nat.add_comm]
+    · rw [if_neg hf] at h ⊢
+      simp only [Option.some.injEq] at h
+      subst h
+      exact ⟨none, rfl, trivial⟩
+  | endTag name hsh =>
+    simp only [shTag] at h ⊢
+    by_cases hf : f.nextEndTag = true
+    · rw [if_pos hf] at h ⊢
+      cases hn : checkedSlice inpS name with
+      | none => rw [hn] at h; simp at h
+      | some n =>
+        cases hr : checkedSlice inpS raw with
+        | none => rw [hn, hr] at h; simp at h
+        | some rawb =>
+          rw [hn, hr] at h
+          simp only [Option.some.injEq] at h
+          subst h
+          rw [F.checkedSlice hn, F.checkedSlice hr]
+          obtain ⟨r1, r2, _⟩ := checkedSlice_some hr
+          exact ⟨_, rfl, by simp only [normToken, srcOf_sh], rfl, r1, r2⟩
+    · rw [if_neg hf] at h ⊢
+      simp only [Option.some.injEq] at h
+      subst h
+      exact ⟨none, rfl, trivial⟩
+
+theorem DK0.setFlags {E : γ → γ → Prop} {inpS inpW : Bytes} {δ : Nat} {ds dw : Disp γ} (h : DK0 E inpS inpW δ ds dw)
+    (f : Flags) : DK0 E inpS inpW δ { ds with flags := f } { dw with flags := f } :=
+  ⟨h.ctl, ⟨rfl, h.eq.em, h.eq.gffh, h.eq.paux, h.eq.enc, h.eq.nenc⟩, ⟨h.pend.ltt, h.pend.tp, h.pend.tps⟩,
+    ⟨h.bytes.rcs_le, h.bytes.bytes⟩, h.emT⟩
+
+theorem produceTag_sim {E : γ → γ → Prop} {inpS inpW : Bytes} {δ : Nat} (F : Frame inpS inpW δ) (hcl : TextBlind ctl E)
+    {ds dw : Disp γ} (h : DK0 E inpS inpW δ ds dw) (pc : Nat) (raw : Range) (o : TagOutline) :
+    OpRel (DK0 E inpS inpW δ) (ds.produceTag ctl inpS ⟨pc + δ, raw, o⟩) (dw.produceTag ctl inpW ⟨pc, shR δ raw, shTag δ o⟩) := by
+  unfold Disp.produceTag
+  rw [h.eq.flags]
+  cases htt : tagToToken ds.flags inpS ⟨pc + δ, raw, o⟩ with
+  | none => exact Or.inl trivial
+  | some ft =>
+    obtain ⟨t', hw, hrel⟩ := tagToToken_sim F ds.flags pc raw o ft htt
+    rw [hw]
+    simp only
+    cases hft : ft.2 with
+    | none =>
+      rw [hft] at hrel
+      cases t' with
+      | none => exact Or.inr ⟨rfl, fun _ => h.setFlags ft.1⟩
+      | some x => exact hrel.elim
+    | some tok =>
+      rw [hft] at hrel
+      cases t' with
+      | none => exact hrel.elim
+      | some tok' =>
+        obtain ⟨hn, hnt, hr1, hr2⟩ := hrel
+        exact emitToken_sim F hcl (h.setFlags ft.1) raw tok tok'
+          (fun g => hcl.token_norm g tok tok' hn) hnt ⟨hr1, hr2⟩
+
+/-! ### capture-flag adjustment -/
+
+theorem DK0.setCtl {E : γ → γ → Prop} {inpS inpW : Bytes} {δ : Nat} {ds dw : Disp γ} (h : DK0 E inpS inpW δ ds dw)
+    {c c' : γ} (hc : E c c') : DK0 E inpS inpW δ { ds with ctl := c } { dw with ctl := c' } :=
+  ⟨hc, ⟨h.eq.flags, h.eq.em, h.eq.gffh, h.eq.paux, h.eq.enc, h.eq.nenc⟩, ⟨h.pend.ltt, h.pend.tp, h.pend.tps⟩,
+    ⟨h.bytes.rcs_le, h.bytes.bytes⟩, h.emT⟩
+
+theorem DK0.setPaux {E : γ → γ → Prop} {inpS inpW : Bytes} {δ : Nat} {ds dw : Disp γ} (h : DK0 E inpS inpW δ ds dw)
+    (b : Bool) : DK0 E inpS inpW δ { ds with pendingAux := b } { dw with pendingAux := b } :=
+  ⟨h.ctl, ⟨h.eq.flags, h.eq.em, h.eq.gffh, rfl, h.eq.enc, h.eq.nenc⟩, ⟨h.pend.ltt, h.pend.tp, h.pend.tps⟩,
+    ⟨h.bytes.rcs_le, h.bytes.bytes⟩, h.emT⟩
+
+theorem DK0.setGffh {E : γ → γ → Prop} {inpS inpW : Bytes} {δ : Nat} {ds dw : Disp γ} (h : DK0 E inpS inpW δ ds dw)
+    (b : Bool) : DK0 E inpS inpW δ { ds with gotFlagsFromHint := b } { dw with gotFlagsFromHint := b } :=
+  ⟨h.ctl, ⟨h.eq.flags, h.eq.em, rfl, h.eq.paux, h.eq.enc, h.eq.nenc⟩, ⟨h.pend.ltt, h.pend.tp, h.pend.tps⟩,
+    ⟨h.bytes.rcs_le, h.bytes.bytes⟩, h.emT⟩
+
+theorem auxRefines_sh {inpS inpW : Bytes} {δ : Nat} (F : Frame inpS inpW δ) (as : List AttrOutline) (sc : Bool) :
+    AuxRefines ⟨inpS, as, sc⟩ ⟨inpW, as.map (shA δ), sc⟩ := by
+  refine ⟨rfl, by simp, fun k a a' h1 h2 => ?_⟩
+  simp only [List.getElem?_map, h1, Option.map_some, Option.some.injEq] at h2
+  subst h2
+  exact ⟨fun b hb => F.checkedSlice hb, fun b hb => F.checkedSlice hb⟩
+
+theorem answerAux_sim {E : γ → γ → Prop} {inpS inpW : Bytes} {δ : Nat} (F : Frame inpS inpW δ) (hcl : TextBlind ctl E)
+    {ds dw : Disp γ} (h : DK0 E inpS inpW δ ds dw) (as : List AttrOutline) (sc : Bool) :
+    OpRel (DK0 E inpS inpW δ) (ds.answerAux ctl ⟨inpS, as, sc⟩) (dw.answerAux ctl ⟨inpW, as.map (shA δ), sc⟩) := by
+  unfold Disp.answerAux
+  rcases hcl.aux_norm ds.ctl _ _ (auxRefines_sh F as sc) with hp | heq
+  · left
+    simp only
+    revert hp
+    cases (ctl.auxInfo ds.ctl ⟨inpS, as, sc⟩).2 with
+    | ok f => intro hp; exact hp.elim
+    | error e =>
+      intro hp
+      simp only
+      cases e <;> first | exact hp.elim | exact trivial
+  · right
+    rw [heq]
+    obtain ⟨h1, h2⟩ := hcl.aux ds.ctl dw.ctl ⟨inpW, as.map (shA δ), sc⟩ h.ctl
+    simp only
+    rw [← h1]
+    cases (ctl.auxInfo ds.ctl ⟨inpW, as.map (shA δ), sc⟩).2 with
+    | ok f => exact ⟨rfl, fun _ => (h.setCtl h2).setFlags f⟩
+    | error e => exact ⟨rfl, fun ⟨a, ha⟩ => by cases ha⟩
+
+theorem localName_shD {inpS inpW : Bytes} {δ : Nat} (F : Frame inpS inpW δ) {r : Range} {hsh : Nat} {n : LocalName}
+    (hn : LocalName.new inpS r hsh = some n) : LocalName.new inpW (shR δ r) hsh = some n := by
+  unfold LocalName.new at *
+  split
+  · rename_i he
+    rw [if_pos he] at hn
+    simp only [Option.map_eq_some_iff] at hn ⊢
+    obtain ⟨b, hb, rfl⟩ := hn
+    exact ⟨b, F.checkedSlice hb, rfl⟩
+  · rename_i he
+    rw [if_neg he] at hn
+    exact hn
+
+theorem adjustFlags_sim {E : γ → γ → Prop} {inpS inpW : Bytes} {δ : Nat} (F : Frame inpS inpW δ) (hcl : TextBlind ctl E)
+    {ds dw : Disp γ} (h : DK0 E inpS inpW δ ds dw) (pc : Nat) (raw : Range) (o : TagOutline) :
+    OpRel (DK0 E inpS inpW δ) (ds.adjustFlagsForTag ctl inpS ⟨pc + δ, raw, o⟩)
+      (dw.adjustFlagsForTag ctl inpW ⟨pc, shR δ raw, shTag δ o⟩) := by
+  unfold Disp.adjustFlagsForTag
+  by_cases hpa : ds.pendingAux = true
+  · have hpw : dw.pendingAux = true := by rw [h.eq.paux]; exact hpa
+    rw [if_pos hpa, if_pos hpw]
+    cases o with
+    | startTag name hsh ns as sc =>
+      simp only [shTag]
+      exact answerAux_sim F hcl (h.setPaux false) as sc
+    | endTag name hsh =>
+      simp only [shTag]
+      exact Or.inr ⟨rfl, fun ⟨a, ha⟩ => by cases ha⟩
+  · have hpw : ¬ dw.pendingAux = true := by rw [h.eq.paux]; exact hpa
+    rw [if_neg hpa, if_neg hpw]
+    cases o with
+    | startTag name hsh ns as sc =>
+      simp only [shTag]
+      cases hn : LocalName.new inpS name hsh with
+      | none => exact Or.inl trivial
+      | some ln =>
+        rw [localName_shD F hn]
+        simp only
+        obtain ⟨h1, h2⟩ := hcl.start ds.ctl dw.ctl ln ns h.ctl
+        rw [← h1]
+        cases (ctl.startTag ds.ctl ln ns).2 with
+        | flags f => exact Or.inr ⟨rfl, fun _ => (h.setCtl h2).setFlags f⟩
+        | infoRequest => exact answerAux_sim F hcl (h.setCtl h2) as sc
+        | err e => exact Or.inr ⟨rfl, fun ⟨a, ha⟩ => by cases ha⟩
+    | endTag name hsh =>
+      simp only [shTag]
+      cases hn : LocalName.new inpS name hsh with
+      | none => exact Or.inl trivial
+      | some ln =>
+        rw [localName_shD F hn]
+        simp only
+        obtain ⟨h1, h2⟩ := hcl.endT ds.ctl dw.ctl ln h.ctl
+        rw [← h1]
+        exact Or.inr ⟨rfl, fun _ => (h.setCtl h2).setFlags _⟩
+
+/-! ### sequencing -/
+
+theorem bind_rel {α β : Type} {R R' : Disp γ → Disp γ → Prop} {rs rw : DRes γ α} {fs fw : Disp γ → α → DRes γ β}
+    (h : OpRel R rs rw) (hf : ∀ ds dw a, R ds dw → OpRel R' (fs ds a) (fw dw a)) :
+    OpRel R' (rs.bind fs) (rw.bind fw) := by
+  unfold DRes.bind
+  rcases h with hp | ⟨he, hk⟩
+  · left
+    revert hp
+    cases rs.2 with
+    | ok a => intro hp; exact hp.elim
+    | error e => intro hp; cases e <;> first | exact hp.elim | exact trivial
+  · rw [he]
+    cases hrs : rs.2 with
+    | error e => exact Or.inr ⟨rfl, fun ⟨a, ha⟩ => by cases ha⟩
+    | ok a => exact hf _ _ a (hk ⟨a, hrs⟩)
+
+theorem OpRel.ok {α : Type} {R : Disp γ → Disp γ → Prop} {ds dw : Disp γ} (a : α) (h : R ds dw) :
+    OpRel R ((ds, .ok a) : DRes γ α) (dw, .ok a) := Or.inr ⟨rfl, fun _ => h⟩
+
+theorem isStart_sh (δ : Nat) (o : TagOutline) : (shTag δ o).isStart = o.isStart := by cases o <;> rfl
+
+theorem resumeEmission_id (d : Disp γ) (lx : TagLexeme) (h : d.emissionEnabled = true) :
+    d.resumeEmission ctl lx = d := by
+  unfold Disp.resumeEmission Disp.shouldStopRemoving
+  simp [h]
+
+/-- **`LexemeSink::handle_tag`** -/
+theorem handleTag_sim {E : γ → γ → Prop} {inpS inpW : Bytes} {δ : Nat} (F : Frame inpS inpW δ) (hcl : TextBlind ctl E)
+    {ds dw : Disp γ} (h : DK0 E inpS inpW δ ds dw) (pc : Nat) (raw : Range) (o : TagOutline) :
+    OpRel (DK0 E inpS inpW δ) (Disp.handleTag ctl inpS ⟨pc + δ, raw, o⟩ ds)
+      (Disp.handleTag ctl inpW ⟨pc, shR δ raw, shTag δ o⟩ dw) := by
+  unfold Disp.handleTag
+  obtain ⟨f1, f2, f3, _, _⟩ := flushPendingText_sim hcl h
+  have hflush : OpRel (DK0 E inpS inpW δ) (ds.flushPendingText ctl) (dw.flushPendingText ctl) :=
+    Or.inr ⟨by rw [f1, f2], fun _ => f3⟩
+  refine bind_rel hflush (fun ds1 dw1 _ h1 => ?_)
+  refine bind_rel (R := DK0 E inpS inpW δ) ?_ (fun ds2 dw2 _ h2 => ?_)
+  · rw [h1.eq.gffh]
+    split
+    · exact OpRel.ok () (h1.setGffh false)
+    · exact adjustFlags_sim F hcl h1 pc raw o
+  · rw [resumeEmission_id ds2 _ h2.emT, resumeEmission_id dw2 _ (by rw [h2.eq.em]; exact h2.emT)]
+    refine bind_rel (produceTag_sim F hcl h2 pc raw o) (fun ds3 dw3 _ h3 => ?_)
+    have e1 : ({ ds3 with emissionEnabled := ctl.shouldEmit ds3.ctl } : Disp γ) = ds3 := by
+      rw [hcl.emit, ← h3.emT]
+    have e2 : ({ dw3 with emissionEnabled := ctl.shouldEmit dw3.ctl } : Disp γ) = dw3 := by
+      rw [hcl.emit, ← h3.emT, ← h3.eq.em]
+    simp only [e1, e2]
+    unfold Disp.nextDirective
+    rw [h3.eq.flags]
+    exact OpRel.ok _ h3
 
 end
 
